@@ -17,6 +17,11 @@ CHECKS = {
          "From honest channel histories (0-3 payments, boundary balances) the harness reads the customer's real pay token and old state, then an independent prover (bls12_381 arithmetic, 18 digit proofs included) builds pay proofs for ~45 false variants per base: wrong public nonce, amount wrong on either balance or in only one of state/close state, foreign channel id, close-tag slot replaced, old/new lock mismatch, foreign/tampered/random token, old state richer than the token, and out-of-range balances (-1, 2^63) with the attacker's best digit constraints (residue, all-max, digit outside the alphabet under another digit's signature, negative digit). Strategies: honest-but-lying, answer-as-if-true, post-challenge choice of every scalar commitment and of the two revealed commitment scalars, iterated with the challenge read through the hook. Falsity is recomputed from what the forger holds; an alarm needs an exhibited witness. Positive control per base.",
          "Soundness is decided against this explicit forger family only. Trusts bls12_381, the pairing reference, the hook.",
          "DESIGN.md §4 C02"),
+ "C12": ("exploration",
+         "runtime monitoring: differential over wire atoms - replace one first-message atom, challenge must move; merchant-side challenge observed through the challenge-recorder hook",
+         "Library level: for every proof type, group and tuple length the builder's challenge must equal the finished proof's, and every non-response atom (identified by answering one builder under two challenges, cross-checked against field names) as well as every atom of every other ChallengeInput type (keys, Pedersen and range parameters, signatures, commitments, bare elements, byte strings, Context inputs of length 0..64 with every byte flipped) is replaced by a different valid encoding and the recomputed challenge must differ. zkAbacus level: the real customer prover is run twice with identical randomness and different contexts to find the atoms fixed before the challenge; each is replaced in turn in an EstablishProof / PayProof that is then fed to the real initialize / allow_payment and the challenge recorded by the hook must differ from the original's; likewise for each public value, the key, the range parameters and context bytes. Exhaustive over atoms of one instance per type in the quick tier.",
+         "A response scalar with a zero message entry does not move with the challenge, so atoms named response scalars are treated as responses (stated in c12.rs). Hash collisions are treated as impossible.",
+         "DESIGN.md §4 C12"),
  "C15": ("fault_enumeration",
          "runtime monitoring: wire tracer enumerates every atom of every serializable type; decode-time invariant table checked by substitution; behavioural twin checks of decoded keys/parameters",
          "Every serializable type of both crates (all tuple lengths of the tier, the five customer stages from a real session) is round-tripped; every atom of every honest encoding is replaced in turn by each encoding its position forbids (off-curve, out-of-subgroup, flag patterns, scalar >= q everywhere; identity / zero / close tag / unmatched lock, secret, index / balance >= 2^63 by position) and the decoder must refuse, while valid alternatives must still round trip. Decoded keys, parameters and merchant parts are used against the originals. Exhaustive over atoms x table for one instance per type; the layout is observed from the Serialize impls, not hard-coded.",
